@@ -233,7 +233,7 @@ func (c *Config) unionView(m *omap.Model) []omap.KV {
 // observation names in reporting priority; the first three describe what the
 // transaction would read by key (a failure there means the state diverged and
 // the history is not extended), the others are the merge iterators.
-var stateObs = []string{"answer", "panic", "us.Get", "BatchGet"}
+var stateObs = []string{"answer", "panic", "us.Get", "BatchGet", "BatchGet:duplicate-keys"}
 var readObs = []string{"us.Iter", "us.IterReverse"}
 
 type rec struct {
@@ -368,6 +368,37 @@ func (c *Config) observe(m *omap.Model, im *membuf.Impl, us *unionstore.KVUnionS
 		}
 		if bad || len(got) != n {
 			r.fail("BatchGet", "BatchGet(%s) = %s (err %v), expected exactly the %d visible keys of %s", showKeys(ks), showMap(got), err, n, membuf.ShowModel(view))
+		}
+	}
+
+	// batch get with a key named more than once ([k,k] and [k,j,k]): the answer is the same map
+	for _, k := range c.Keys {
+		for j := -1; j < len(c.Keys); j++ {
+			ks := [][]byte{k, k}
+			if j >= 0 {
+				if bytes.Equal(c.Keys[j], k) {
+					continue
+				}
+				ks = [][]byte{k, c.Keys[j], k}
+			}
+			got, err := bg.BatchGet(ctx, ks)
+			bad := err != nil
+			n := 0
+			seen := map[string]bool{}
+			for _, q := range ks {
+				if seen[string(q)] {
+					continue
+				}
+				seen[string(q)] = true
+				if wv, ok := want[string(q)]; ok {
+					n++
+					e, present := got[string(q)]
+					bad = bad || !present || !bytes.Equal(e.Value, wv)
+				}
+			}
+			if bad || len(got) != n {
+				r.fail("BatchGet:duplicate-keys", "BatchGet(%s) = %s (err %v), expected exactly the %d visible keys of %s", showKeys(ks), showMap(got), err, n, membuf.ShowModel(view))
+			}
 		}
 	}
 
